@@ -79,6 +79,18 @@ def fixed_programs(g):
               "fields": [{"name": "user_name", "ty": P("String"), "attrs": {}}, {"name": "last_seen", "ty": OPT(P("u32")), "attrs": {}}]}]
     imap = {x["name"]: x for x in items}
     progs.append({"items": items, "probes": [{"ty": N(x["name"]), "values": g.all_variant_values(N(x["name"]), imap), "de": True} for x in items]})
+    # every inflection rule on identifiers that are not in the conventional case: leading underscores, capitals, digits, acronyms
+    # (serde's rules are defined on the conventional spelling; ts-rs has to agree with what serde does on the others too)
+    for rule in gen_corpus.RULES:
+        items = [{"kind": "struct", "name": f"FxRaS{rule}", "shape": "named", "attrs": {"rename_all": rule}, "generics": [], "de": True,
+                  "fields": [{"name": fn, "ty": P("u8"), "attrs": {}} for fn in ("_id", "user_name", "_rev_tag", "URL_path", "User_id", "x2_y", "trailing_", "__dunder_x")]},
+                 {"kind": "enum", "name": f"FxRaE{rule}", "attrs": {"rename_all": rule}, "generics": [], "de": True,
+                  "variants": [{"name": vn, "shape": "unit", "attrs": {}, "fields": []} for vn in ("Http_Error", "tcp_v4", "HTTPServer", "Plain", "A1b", "X_")]
+                              + [{"name": "With_Fields", "shape": "named", "attrs": {}, "fields": [{"name": "_inner_id", "ty": P("u8"), "attrs": {}}]}]},
+                 {"kind": "enum", "name": f"FxRaF{rule}", "attrs": {"rename_all_fields": rule, "tag": "t"}, "generics": [], "de": True,
+                  "variants": [{"name": "V", "shape": "named", "attrs": {}, "fields": [{"name": fn, "ty": P("bool"), "attrs": {}} for fn in ("_id", "Url_Path", "plain_one")]}]}]
+        imap = {x["name"]: x for x in items}
+        progs.append({"items": items, "probes": [{"ty": N(x["name"]), "values": g.all_variant_values(N(x["name"]), imap), "de": True} for x in items]})
     return progs
 
 
